@@ -28,9 +28,9 @@ PROPS = {
     "C20": {"level": "exploration"},
     "C12": {"level": "exploration"},
     "C19": {"level": "other"},
-    "C07": {"level": "other"},
-    "C08": {"level": "other"},
-    "C06": {"level": "other"},
+    "C07": {"level": "exploration"},
+    "C08": {"level": "exploration"},
+    "C06": {"level": "exploration"},
 }
 
 
